@@ -161,6 +161,44 @@ static void grid_dump(void) {
   fputc('\n', out);
 }
 
+/* independent C evaluation of the combinatorial orientation clause (not refine code): every unordered face has
+   signed multiplicity 0, tet faces counted with the parity of their orientation, tris with the opposite sign */
+static int sort3_sign(const REF_INT *f, REF_INT *k) {
+  REF_INT a = f[0], b = f[1], c = f[2], t;
+  int s = 1;
+  if (a > b) { t = a; a = b; b = t; s = -s; }
+  if (b > c) { t = b; b = c; c = t; s = -s; }
+  if (a > b) { t = a; a = b; b = t; s = -s; }
+  k[0] = a; k[1] = b; k[2] = c;
+  return s;
+}
+static int orient_ok(REF_GRID g) {
+  REF_CELL tet = ref_grid_tet(g), tri = ref_grid_tri(g);
+  REF_INT nf = 4 * ref_cell_n(tet) + ref_cell_n(tri), n = 0, cell, nodes[REF_CELL_MAX_SIZE_PER], i, j, f[3];
+  REF_INT *key = (REF_INT *)malloc(sizeof(REF_INT) * 3 * (size_t)(nf + 1));
+  int *sgn = (int *)malloc(sizeof(int) * (size_t)(nf + 1)), ok = 1;
+  each_ref_cell_valid_cell_with_nodes(tet, cell, nodes) {
+    for (i = 0; i < 4; i++) {
+      for (j = 0; j < 3; j++) f[j] = ref_cell_f2n(tet, j, i, cell);
+      sgn[n] = sort3_sign(f, &key[3 * n]);
+      n++;
+    }
+  }
+  each_ref_cell_valid_cell_with_nodes(tri, cell, nodes) {
+    sgn[n] = -sort3_sign(nodes, &key[3 * n]);
+    n++;
+  }
+  for (i = 0; i < n && ok; i++) {
+    int sum = 0;
+    for (j = 0; j < n; j++)
+      if (key[3 * i] == key[3 * j] && key[3 * i + 1] == key[3 * j + 1] && key[3 * i + 2] == key[3 * j + 2]) sum += sgn[j];
+    if (0 != sum) ok = 0;
+  }
+  free(key);
+  free(sgn);
+  return ok;
+}
+
 /* `valid3 nnode ntet ntri x y z ... | n0 n1 n2 n3 ... | n0 n1 n2 id ...` all on one line (without the bars):
    refine's own validation of that mesh */
 static void valid_op(int dim) {
@@ -217,8 +255,8 @@ static void valid_op(int dim) {
     return;
   }
   used_ok = (REF_SUCCESS == ref_validation_unused_node(g));
-  fprintf(out, "range=ok vol=%s face=%s bnd=%s used=%s\n", vol_ok ? "ok" : "bad", face_ok ? "ok" : "bad",
-          bnd_ok ? "ok" : "bad", used_ok ? "ok" : "bad");
+  fprintf(out, "range=ok vol=%s face=%s bnd=%s used=%s orient=%s\n", vol_ok ? "ok" : "bad", face_ok ? "ok" : "bad",
+          bnd_ok ? "ok" : "bad", used_ok ? "ok" : "bad", orient_ok(g) ? "ok" : "bad");
   ref_grid_free(g);
 }
 
